@@ -36,7 +36,7 @@ function analyze (ast, tempRe) {
       const declared = new Set()
       for (const s of n.body) if (isInjectedLet(s)) { lets++; for (const d of s.declarations) { if (declared.has(d.id.name)) problems.push({ kind: 'temp-declared-twice-in-block', name: d.id.name }); declared.add(d.id.name) } }
       // a function body block belongs to the function frame pushed by its parent
-      stack.push({ kind: 'block', declared, node: n }); pushed++
+      stack.push({ kind: 'block', declared, node: n, contexts: new Map() }); pushed++
     }
     if (isTemp(n) && !(parent && parent.type === 'VariableDeclarator' && key === 'id')) {
       uses++
@@ -45,7 +45,16 @@ function analyze (ast, tempRe) {
       let found = false
       for (let i = stack.length - 1; i >= 0; i--) {
         const f = stack[i]
-        if (f.kind === 'block') { if (f.declared.has(n.name)) { found = true; break } } else if (!crossed) crossed = f
+        if (f.kind === 'block') {
+          if (f.declared.has(n.name)) {
+            found = true
+            // the activation context this use runs in: the declaring block's own statements, or the parameter list /
+            // member initialisers of ONE nested function / class (evaluated in that function's activation)
+            if (!f.contexts.has(n.name)) f.contexts.set(n.name, new Set())
+            f.contexts.get(n.name).add(crossed ? crossed.owner : f.node)
+            break
+          }
+        } else if (!crossed) crossed = f
       }
       if (!found) problems.push({ kind: 'temp-undeclared', name: n.name, at: n.start })
       else if (crossed) problems.push({ kind: 'temp-declared-in-other-activation', name: n.name, at: n.start, boundary: crossed.what })
@@ -57,14 +66,19 @@ function analyze (ast, tempRe) {
       let extra = 0
       if (FUNC.has(n.type)) {
         // params and body are evaluated in the callee's activation; a block body declares its own temporaries
-        if (k === 'params') { stack.push({ kind: 'function', what: 'function-parameters' }); extra++ } else if (k === 'body') {
-          if (v.type === 'BlockStatement') { /* the body's own block frame resolves first; anything above it is outside */ stack.push({ kind: 'function', what: 'function-body' }); extra++ } else { stack.push({ kind: 'function', what: 'arrow-expression-body' }); extra++ }
+        if (k === 'params') { stack.push({ kind: 'function', what: 'function-parameters', owner: n }); extra++ } else if (k === 'body') {
+          if (v.type === 'BlockStatement') { /* the body's own block frame resolves first; anything above it is outside */ stack.push({ kind: 'function', what: 'function-body', owner: n }); extra++ } else { stack.push({ kind: 'function', what: 'arrow-expression-body', owner: n }); extra++ }
         }
-      } else if ((n.type === 'PropertyDefinition' || n.type === 'AccessorProperty') && k === 'value') { stack.push({ kind: 'field', what: 'class-field-initialiser' }); extra++ }
+      } else if ((n.type === 'PropertyDefinition' || n.type === 'AccessorProperty') && k === 'value') { stack.push({ kind: 'field', what: 'class-field-initialiser', owner: parent }); extra++ }
       visit(v, stack, n, k)
       while (extra-- > 0) stack.pop()
     }
-    while (pushed-- > 0) stack.pop()
+    while (pushed-- > 0) {
+      const f = stack.pop()
+      // one temporary, several activation contexts: a call made from one of them while the temporary is live in another
+      // (e.g. a later parameter default that invokes a function created by an earlier one) overwrites it
+      if (f.contexts) for (const [name, ctxs] of f.contexts) if (ctxs.size > 1) problems.push({ kind: 'temp-shared-between-activation-contexts', name, contexts: ctxs.size })
+    }
   }
   visit(ast, [], null, null)
 
